@@ -400,6 +400,9 @@ def report(prop, tier, seed, joblist, results, wall, a, mod):
         print(f"ENGINE-ERROR property={prop}: zero obligations generated"); status = 3
     if not vcount and tier in base and not a.jobs and base[tier] and not (set(base[tier]) & set(all_ids)):
         print(f"ENGINE-ERROR property={prop}: none of the baseline obligations was generated"); status = 3
+    # ---- vacuity per job: a job that evaluated no clause at all (every path raised or was unsupported) decides nothing ----
+    vacuous = sorted(r['job'] for r in results if not r['obligations'] and not r['numeric']['checks'] and not r['numeric']['fails'] and not r.get('error'))
+    for j in vacuous[:20]: print(f"VACUOUS job={j} (no clause evaluated on any path or native run)")
     # ---- evidence ----------------------------------------------------------------------------
     n_known_obl = sum(1 for _, o, how, _ in knowns if how != 'twin')
     n_claim = n_obl - n_known_obl          # obligations not covered by a listed known finding
@@ -413,6 +416,7 @@ def report(prop, tier, seed, joblist, results, wall, a, mod):
         jobs=len(results), paths_explored=paths_total,
         functions_under_contract=functions,
         undecided=[f"{j}:{n}: {w}"[:300] for j, n, w in undecided][:60],
+        jobs_without_any_evaluated_clause=vacuous,
         lost_proofs=lost[:60],
         known_findings=sorted({k['what'] for _, _, _, k in knowns}),
         refuted_known=len(knowns), refuted_new=vcount,
